@@ -92,7 +92,11 @@ class Spec:
                 cx.oblige_item(f"precondition of {spec.unit_name()}: {label}", f, kind="pre")
             r = spec.model(cx, a)
             if r is NotImplemented:
-                raise Unsupported(f"{spec.unit_name()} has no functional model for call sites")
+                if not hasattr(spec, "fresh_result"):
+                    raise Unsupported(f"{spec.unit_name()} has no functional model for call sites")
+                r = spec.fresh_result(cx, a)
+                for _label, f in spec.ensures(cx, a, r):
+                    cx.assume_item(f)
             return r
 
         return summary
@@ -253,6 +257,9 @@ def run_unit(spec: Spec, repo: Repo | None = None, timeout_s=20.0, want_smt2=Fal
         V.AXIOMS.clear()
         V.APPS.clear()
         reset_ack()
+        from .numpy_model import TRANSC_APPS
+
+        TRANSC_APPS.clear()
         cx = Ctx(repo, decisions=dec, specs=specs, inline_ok=set(spec.inline) if spec.inline is not None else None)
         interp = Interp(cx)
         try:
@@ -371,6 +378,9 @@ def run_lemma(lemma: Lemma, timeout_s=20.0, want_smt2=False) -> UnitResult:
     V.AXIOMS.clear()
     V.APPS.clear()
     reset_ack()
+    from .numpy_model import TRANSC_APPS
+
+    TRANSC_APPS.clear()
     try:
         items = lemma.formula()
     except Exception as e:  # noqa: BLE001
